@@ -1,6 +1,9 @@
 package c13
 
 import (
+	"io/ioutil"
+	"os"
+	"path/filepath"
 	"strings"
 	"sync"
 	"sync/atomic"
@@ -220,6 +223,7 @@ type crashDB struct {
 	name  string
 	inner dbm.DB
 	c     *ctl
+	dir   string // reported by Dir() when set (flat state mode keeps its undo file there)
 }
 
 var _ dbm.DB = (*crashDB)(nil)
@@ -287,7 +291,12 @@ func (d *crashDB) NewIteratorWithPrefix(prefix []byte) dbm.Iterator {
 	d.c.op()
 	return &crashIter{d.inner.NewIteratorWithPrefix(prefix), d.c}
 }
-func (d *crashDB) Dir() string              { return d.inner.Dir() }
+func (d *crashDB) Dir() string {
+	if d.dir != "" {
+		return d.dir
+	}
+	return d.inner.Dir()
+}
 func (d *crashDB) Close()                   {}
 func (d *crashDB) Print()                   {}
 func (d *crashDB) Stats() map[string]string { return d.inner.Stats() }
@@ -344,42 +353,69 @@ func (b *crashBatch) Reset() { b.inner.Reset(); b.n, b.dels, b.first = 0, 0, nil
 
 // ---------------------------------------------------------------- node databases
 
-// nodeDBs is the set of raw MemDBs of one node plus the controller its wrappers share.
+// nodeDBs is the set of raw MemDBs of one node plus the controller its wrappers share. In flat
+// (key/value) state mode dir is the node's private directory holding the undo file kvState.wal.
 type nodeDBs struct {
 	raw map[string]dbm.DB
 	c   *ctl
+	kv  bool
+	dir string
 }
+
+const walName = "kvState.wal"
 
 func (nd *nodeDBs) wrap(name string, db dbm.DB) dbm.DB {
-	return &crashDB{name: name, inner: db, c: nd.c}
+	d := &crashDB{name: name, inner: db, c: nd.c}
+	if name == "state" && nd.kv {
+		d.dir = nd.dir
+	}
+	return d
 }
 
-type dbSnap map[string][][2][]byte
+type dbSnap struct {
+	dbs map[string][][2][]byte
+	kv  bool
+	wal []byte
+}
 
 // snapshot copies every key/value of the raw databases (values are never mutated in place: the
-// wrapper copies on the way in and out, so clones may share them).
-func snapshot(raw map[string]dbm.DB) dbSnap {
-	out := dbSnap{}
-	for name, db := range raw {
+// wrapper copies on the way in and out, so clones may share them) and, in flat mode, the undo file.
+func snapshot(nd *nodeDBs) *dbSnap {
+	out := &dbSnap{dbs: map[string][][2][]byte{}, kv: nd.kv}
+	for name, db := range nd.raw {
 		var kvs [][2][]byte
 		it := db.Iterator(nil, nil)
 		for ; it.Valid(); it.Next() {
 			kvs = append(kvs, [2][]byte{it.Key(), it.Value()})
 		}
 		it.Close()
-		out[name] = kvs
+		out.dbs[name] = kvs
+	}
+	if nd.kv {
+		out.wal, _ = ioutil.ReadFile(filepath.Join(nd.dir, walName))
 	}
 	return out
 }
 
-func (s dbSnap) restore() *nodeDBs {
-	nd := &nodeDBs{raw: map[string]dbm.DB{}, c: newCtl()}
-	for name, kvs := range s {
+// restore builds fresh databases from the snapshot; dir is the new node's private directory.
+func (s *dbSnap) restore(dir string) *nodeDBs {
+	nd := &nodeDBs{raw: map[string]dbm.DB{}, c: newCtl(), kv: s.kv, dir: dir}
+	for name, kvs := range s.dbs {
 		db := dbm.NewMemDB()
 		for _, kv := range kvs {
 			db.Set(kv[0], kv[1])
 		}
 		nd.raw[name] = db
 	}
+	if s.kv {
+		os.MkdirAll(dir, 0755)
+		ioutil.WriteFile(filepath.Join(dir, walName), s.wal, 0600)
+	}
 	return nd
+}
+
+// reopen returns the same bytes (databases and directory) under a fresh controller: what a
+// restarted process sees.
+func (nd *nodeDBs) reopen() *nodeDBs {
+	return &nodeDBs{raw: nd.raw, c: newCtl(), kv: nd.kv, dir: nd.dir}
 }
